@@ -53,6 +53,8 @@ def cases(tier, seed):
         yield "stationary", dict(realisation=real)
     for k in range(4 if tier == "quick" else 16):
         yield "real_mp", dict(k=k)
+    for k in range(6):
+        yield "cli", dict(k=k)
 
 
 def make(arch, shape, real=0):
@@ -322,5 +324,82 @@ def ev_real_mp(case, ctx):
         ctx.violation("real multiprocessing maps differ from the in-process run (%s)" % cfg, "real_mp_digest|" + cfg)
 
 
+def ev_cli(case, ctx):
+    """the BANE command line (pool simulated in-process): options must reach filter_image unchanged and the written files must
+    hold the maps the API returns"""
+    import logging
+    from AegeanTools import BANE as bane_mod
+    from AegeanTools.CLI import BANE as cli
+    from mc import sched as S
+    k = case["k"]
+    d = os.environ["VERIF_SCRATCH"]
+    shape = [(48, 40), (40, 56)][k % 2]
+    # (no blank pixels for the --compress case: linear interpolation next to a blank node is C15's business)
+    img = make(["noise", "nanblock", "gradient"][k % 3] if k != 4 else "gradient", shape, real=50 + k)
+    f = os.path.join(d, "cli.fits")
+    write(f, img, BMAJ=0.03, BMIN=0.02, BPA=10.0)       # beam -> default grid of 4 x beam / pixel scale
+    opts = [[], ["--grid", "4", "6", "--box", "12", "18"], ["--nomask"], ["--stripes", "3", "--cores", "2"], ["--compress"],
+            ["--grid", "5", "5", "--box", "20", "10", "--stripes", "2", "--cores", "4", "--nomask"]][k]
+    base = os.path.join(d, "cli_out")
+    for sfx in ("bkg", "rms"):
+        if os.path.exists("%s_%s.fits" % (base, sfx)):
+            os.remove("%s_%s.fits" % (base, sfx))
+    cfg = "cli:%s,%dx%d" % (" ".join(opts) or "defaults", shape[0], shape[1])
+    ctx.count("cli")
+    ctx.nontrivial(cfg)
+    logging.disable(logging.CRITICAL)
+    sch = S.Scheduler(())
+    bane_mod.multiprocessing = S.FakeMultiprocessing(sch)
+    bane_mod.SharedMemory = E.FakeSharedMemory
+    E.FakeSharedMemory.registry = {}
+    try:
+        try:
+            cli.main([f, "--out", base] + opts)
+        except SystemExit:
+            pass
+        except Exception as e:
+            ctx.violation("BANE CLI raised %r (%s)" % (e, cfg), "cli_raise|" + cfg)
+            return
+    finally:
+        bane_mod.multiprocessing = E.REAL_MP
+        bane_mod.SharedMemory = E.REAL_SHM
+    # the same call through the API
+    kw = dict(cores=None, nslice=None, mask=True)
+    if "--grid" in opts:
+        i = opts.index("--grid")
+        kw["step_size"] = (int(opts[i + 1]), int(opts[i + 2]))
+    if "--box" in opts:
+        i = opts.index("--box")
+        kw["box_size"] = (int(opts[i + 1]), int(opts[i + 2]))
+    if "--stripes" in opts:
+        kw["nslice"] = int(opts[opts.index("--stripes") + 1])
+    if "--cores" in opts:
+        kw["cores"] = int(opts[opts.index("--cores") + 1])
+    if "--nomask" in opts:
+        kw["mask"] = False
+    st, r = E.filter_image_sim(f, None, **kw)
+    if st != "ok" or r is None:
+        ctx.violation("API reference run failed (%s): %s" % (cfg, st), "cli_ref|" + cfg)
+        return
+    for sfx, ref in (("bkg", r[0]), ("rms", r[1])):
+        fn = "%s_%s.fits" % (base, sfx)
+        if not os.path.exists(fn):
+            ctx.violation("BANE CLI wrote no %s file (%s)" % (sfx, cfg), "cli_nofile|" + cfg)
+            continue
+        if "--compress" in opts:
+            got = fits_tools.expand(fn)[0].data
+            step = bane_mod.get_step_size(fits.getheader(f))[0]
+            okv = got.shape == shape and np.array_equal(np.asarray(got)[::step, ::step], ref[::step, ::step], equal_nan=True)
+        else:
+            got = fits.getdata(fn)
+            okv = got.shape == shape and np.array_equal(got, ref, equal_nan=True)
+        ctx.outcome("cli:%s" % ("ok" if okv else "differs"))
+        if not okv:
+            ctx.violation("the %s file written by the BANE CLI differs from the map returned by filter_image with the same settings (%s)" % (sfx, cfg),
+                          "cli_differs|%s,%s" % (sfx, cfg))
+
+
 def evaluate(clause, case, ctx):
+    if clause == "cli":
+        return ev_cli(case, ctx)
     dict(contract=ev_contract, kinds=ev_kinds, stationary=ev_stationary, real_mp=ev_real_mp)[clause](case, ctx)
